@@ -171,6 +171,14 @@ def cases(seed, tier):
                 ', '.join(pol['key']), ', '.join(pol['kex']), ', '.join(pol['enc']), ', '.join(pol['mac']))
             yield {'kind': 'policy', 'profile': prof, 'policy_text': text, 'expect_pass': drift is None, 'opts': rng.choice([['-n'], ['-j'], ['-jj'], ['-b'], ['-v'], []]),
                    'net': gen.rand_net(rng), 'pseed': rng.getrandbits(32)}
+    yield from absent_client_cases(seed, tier)
+
+
+def absent_client_cases(seed, tier):
+    """A client audit (-c) with an explicit time-out to which no client ever connects: an audit that obtained no lists at all."""
+    for j in range(12 if tier == 'quick' else 60):
+        rng = gen.case_rng(seed, ID, 'absent', j)
+        yield {'kind': 'absent_client', 'opts': rng.choice(OPTSETS + [[]]), 'timeout': rng.choice([1, 2, 3]), 'pseed': rng.getrandbits(32)}
 
 
 def sample(case):
@@ -233,6 +241,20 @@ def run_case(case, ctx):
         if len(tr.levels() & {'fail', 'warn', 'info'}) >= 2:
             sev = tuple(tuple(sorted({lv for lv, _ in e['notes']})) for c in CATS for e in tr.algs[c])
             keys.append(h('complete', sev, case['optsets']))
+    elif kind == 'absent_client':
+        plan = c09.base_plan('client', case['opts'], case['timeout'], {'rtt_us': 200}, None, case['pseed'])
+        plan['world']['clients'][0]['at_us'] = 10 ** 12
+        plan['knobs'] = dict(plan.get('knobs') or {}, max_vtime_s=600)
+        r = ctx.run(plan)
+        if r.get('harness_error'):
+            return {'violations': [], 'keys': []}
+        if r['outcome'] != 'exit':
+            out.append(viol('C02 client audit nobody connected to: run did not terminate (%s)' % r['outcome'], 'opts=%r timeout=%s' % (case['opts'], case['timeout'])))
+        elif r['status'] in (0, 2, 3):
+            out.append(viol('C02 client audit nobody connected to: status %s' % r['status'], 'opts=%r timeout=%s\n%s' % (case['opts'], case['timeout'], r['stdout'][-500:])))
+        elif report.TextReport(r['stdout'], verbose='-v' in case['opts']).has_alg_report() and not any(o in ('-j', '-jj') for o in case['opts']):
+            out.append(viol('C02 client audit nobody connected to: an algorithm report is shown', r['stdout'][-500:]))
+        keys.append(h('absent_client', case['opts'], case['timeout']))
     elif kind == 'broken':
         plan = c09.base_plan(case['arch'], case['opts'], case['timeout'], case['net'], case['faults'], case['pseed'])
         if case.get('via_file'):
